@@ -47,6 +47,18 @@ CLAIMED = {
                 "(stem~n injective) is assumed - neither solver decides it - and bounded-checked. The flat src/<basename> copy is a recorded known finding.",
         "note": "One assumed string lemma; anchors inside a page rely on urllib.parse.quote being injective.",
     },
+    "C09": {
+        "engines": ["A", "S", "Bd"],
+        "technique": "contract-based deductive verification: VCs from the AST of FortranBase.get_url (uninterpreted get_dir/ident/anchor, string theory; z3, word "
+                     "equations re-discharged by cvc5) ; implication obligations between the jinja2 AST of every link to a list page and the AST of "
+                     "Documentation.__init__ (linear integer arithmetic, z3); block contract on the graph-node URL statement; bounded whole-site link walk",
+        "text": "Narrow claim (URL builders and page-existence conditions only). Proved for every entity: get_url returns exactly <dir>/<ident>.html, or "
+                "<parent page>#<anchor> for variable-like entities, is relative and has at most one fragment; every literal link to lists/<page>.html in the "
+                "templates is guarded by a condition implying the condition under which that page is created; graph nodes link only to visible entities. "
+                "relurl, Markdown link rewriting, template-emitted ids, SVG and the search index are not under contract: a bounded stand-in generates 36 "
+                "complete sites (9 project shapes x 4 option sets) with the real FORD and follows every link (not counted).",
+        "note": "Partial: the existence of fragments and of entity pages is only checked by the bounded walk.",
+    },
     "C14": {
         "engines": ["A", "Bd"],
         "technique": "contract-based deductive verification: VCs from the AST of FortranLine.__analyse (array-encoded line, bounded column windows) against "
@@ -167,4 +179,4 @@ CLAIMED = {
     },
 }
 _NB = "no obligations built yet for this property in the current commit (planned in DESIGN.md section 6; technique not switched)"
-NOT_APPLICABLE = {p: _NB for p in ["C09", "C16", "C17", "C18"]}
+NOT_APPLICABLE = {p: _NB for p in ["C16", "C17", "C18"]}
